@@ -4,7 +4,9 @@ For every sequence of run-call lengths from {0,1,2,3} of length <= 3 and every a
 {run, srun, irun fully iterated} to the calls, on Canonical, GrandCanonical and ForceBias
 simulations with recording observers at intervals {1,2,3,-1,-2,-4}, a logger and a trajectory:
 (a) differential oracle - atoms, step counter, log/trajectory text and observer call logs equal
-those of one ``run(sum)``; (b) reference model of the observer schedule and of the header.
+those of one ``run(sum)``; (b) reference model of the observer schedule and of the header;
+(c) the simulation rebuilt from its dictionary between two calls: each call still performs
+exactly the requested number of steps.
 """
 
 from __future__ import annotations
@@ -170,11 +172,19 @@ def task(arg):
                 sim, atoms, log, traj, recs = build(driver, seed, with_logger, div, late)
                 zero_first = seq[0] == 0 and total > 0
                 kind = "zero-length-call-first" if zero_first else "zero-length-call" if 0 in seq else "split" if L > 1 else "single"
+                olds = []
                 try:
                     bad_count = None
                     for ci, (how, n) in enumerate(zip(assign, seq)):
                         if late and ci == 1:
                             attach_logger(sim, log)
+                        if arg.get("restored") and ci == 1:
+                            # the documented restart: a new object from the dictionary, calculator re-attached
+                            calc = sim.atoms.calc
+                            sim2 = type(sim).from_dict(sim.to_dict())
+                            sim2.atoms.calc = type(calc)(centre=(3, 3, 3)) if type(calc).__name__ == "PairSoft" else type(calc)()
+                            olds.append(sim)
+                            sim = sim2
                         before = sim.step_count
                         k = do_call(sim, how, n)
                         if sim.step_count - before != n or (k is not None and k != n):
@@ -184,14 +194,20 @@ def task(arg):
                 except Exception as e:  # noqa: BLE001
                     add(f"C15/{driver}/{kind}/exception:{type(e).__name__}", f"{e}; {where}", rep)
                     sim.close()
+                    for o in olds:
+                        o.close()
                     continue
                 sim.close()
+                for o in olds:
+                    o.close()
                 if L > 1 or 0 in seq:
                     counters["nontrivial"] += 1
                 outcomes.add((kind, tuple(sorted(set(assign)))))
                 if bad_count:
-                    add(f"C15/{driver}/{bad_count[0]}/wrong-number-of-steps", f"{bad_count[0]}({bad_count[1]}) advanced the counter by {bad_count[2]} and yielded {bad_count[3]} steps; {where}", rep)
+                    add(f"C15/{driver}/{bad_count[0]}/wrong-number-of-steps" + ("-after-rebuilding-from-dictionary" if arg.get("restored") else ""), f"{bad_count[0]}({bad_count[1]}) advanced the counter by {bad_count[2]} and yielded {bad_count[3]} steps; {where}", rep)
                     continue
+                if arg.get("restored"):
+                    continue  # only the number of steps each call performs is judged across a rebuild (the rest is C07's statement)
                 # (b) reference model
                 model_bad = None
                 for iv in INTERVALS:
@@ -245,6 +261,10 @@ def run(tier, seed):
                 args.append({"driver": drv, "seed": s, "lengths": [L]})
         # default observers without a logger / with other cadences (also negative: one-shot)
         args.append({"driver": drv, "seed": seeds[0], "lengths": [2], "late_logger": True})
+        if drv != "ForceBias":  # the force-bias drivers offer no from_dict
+            args.append({"driver": drv, "seed": seeds[0], "lengths": [2], "restored": True})
+            if tier == "thorough":
+                args.append({"driver": drv, "seed": seeds[0], "lengths": [3], "restored": True})
         for lg, div in ((False, 1), (True, 2), (True, -2), (False, -1)):
             for L in (1, 2) if tier == "quick" else (1, 2, 3):
                 args.append({"driver": drv, "seed": seeds[0], "lengths": [L], "logger": lg, "default_interval": div})
